@@ -37,7 +37,7 @@ for c in cfgs:
                     tt = bl["term"]
                     if tt["k"] == "call" and "indirect" not in tt["callee"]:
                         cn = tt["callee"].get("resolved") or tt["callee"]["path"]
-                        mm = re.search(r"core::iter::traits::iterator::Iterator>?::(try_fold|fold)$", cn)
+                        mm = re.search(r"core::iter::traits::iterator::Iterator>?::(try_fold|fold|for_each)$", cn)
                         cs.add("core::iter::traits::iterator::Iterator::" + mm.group(1) if mm else cn)
             if b["promoted"] is None:
                 names.add(b["fn"])
@@ -54,6 +54,7 @@ print(len(names), "functions")
 import json as _json
 with open(os.path.join(os.path.dirname(inline.BASELINE), "baseline_items.json"), "w") as f:
     ADAPT = ("core::option::Option::map", "core::result::Result::map", "core::option::Option::map_or", "core::option::Option::and_then",
-             "core::iter::traits::iterator::Iterator::fold", "core::iter::traits::iterator::Iterator::try_fold")
+             "core::iter::traits::iterator::Iterator::fold", "core::iter::traits::iterator::Iterator::try_fold",
+             "core::iter::traits::iterator::Iterator::for_each", "bool::then", "core::option::Option::ok_or_else")
     _json.dump({"adts": adts, "consts": consts, "adaptor_calls": {k: sorted(c for c in v if c in ADAPT) for k, v in calls.items() if any(c in ADAPT for c in v)}}, f, indent=0, sort_keys=True, ensure_ascii=False)
 print(len(adts), "adts", len(consts), "consts")
